@@ -66,13 +66,46 @@ class _Run:
             e.set_edit_pos(pos)
         return e
 
+    def twin(self, text: str, pos: int):
+        """A fresh, never-rendered widget with the same geometry holding `text` (numeric variants lay their
+        text out exactly like a plain Edit with the default options; their constructors validate and
+        normalise the default value, so the twin is a plain Edit)."""
+        if self.kind == "edit":
+            return self.make(text=text, pos=pos)
+        import urwid  # noqa: PLC0415
+
+        tw = urwid.Edit(self.scen["config"].get("caption", ""), text)
+        tw.set_edit_pos(pos)
+        return tw
+
     def geometry(self, text: str, maxcol: int):
         """(full text, translation) of a fresh twin holding `text` (no view shift, no state)."""
-        tw = self.make(text=text, pos=0) if self.kind == "edit" else None
-        if tw is None:
-            return None
+        tw = self.twin(text, 0)
         full = tw.get_text()[0]
         return full, tw.get_line_translation(maxcol)
+
+    # ---- numeric variants ------------------------------------------------------------------
+    def num_valid(self, ch: str, text: str, pos: int, cfg) -> bool:
+        """Documented alphabet of IntEdit / IntegerEdit / FloatEdit: decimal digits; digits of the base;
+        digits and the decimal separator; one minus sign, only as the first character, when negative
+        numbers are allowed, and nothing in front of it."""
+        k = self.kind
+        if k == "int":
+            return ch in "0123456789"
+        allowed = "0123456789ABCDEFGHIJKLMNOPQRSTUVWXYZ"[: cfg.get("base", 10)] if k == "integer" else "0123456789."
+        if ch.upper() in allowed:
+            return not (pos == 0 and text[:1] == "-")
+        return bool(cfg.get("neg")) and ch == "-" and pos == 0 and "-" not in text
+
+    def num_trims(self, cfg) -> bool:
+        return self.kind in ("int", "float") or cfg.get("base", 10) == 10
+
+    @staticmethod
+    def num_trim(text: str, pos: int) -> tuple[str, int]:
+        """Leading zeros to the left of the cursor are removed; the cursor stays on its character."""
+        while pos > 0 and text[:1] == "0":
+            text, pos = text[1:], pos - 1
+        return text, pos
 
     # ------------------------------------------------------------------------------------
     def run(self) -> str:  # noqa: C901, PLR0912, PLR0915
@@ -92,7 +125,7 @@ class _Run:
         m_text = e.edit_text
         m_pos = e.edit_pos
         m_pref = None  # (col | "L" | "R", maxcol)
-        model_on = self.kind == "edit"
+        model_on = True
         signals: list = []
         urwid.connect_signal(e, "change", lambda w, new: signals.append(("change", new, w.edit_text)))
         urwid.connect_signal(e, "postchange", lambda w, old: signals.append(("postchange", old, w.edit_text)))
@@ -117,6 +150,13 @@ class _Run:
                         break
                     if model_on:
                         exp = self.model_key(key, m_text, m_pos, m_pref, maxcol, cfg, text_layout, caplen, Align)
+                        if exp is not None and self.kind != "edit" and exp[3] and self.num_trims(cfg):
+                            t2, p2 = self.num_trim(exp[0], exp[1])
+                            if t2 != exp[0]:
+                                res.probe("leading_zeros_trimmed")
+                                if exp[1] == len(exp[0]):
+                                    res.probe("leading_zeros_trimmed_with_cursor_at_end")
+                                exp = (t2, p2, None, True)
                         if exp is not None:
                             m_text2, m_pos2, m_pref2, handled = exp
                             if (rv is None) != handled:
@@ -142,7 +182,7 @@ class _Run:
                         break
                     if model_on and shown is not None and shown[0] == maxcol and shown[2] == before_text:
                         # what the user sees is the last render: the click must land on that character
-                        tw = self.make(text=shown[2], pos=shown[3])
+                        tw = self.twin(shown[2], shown[3])
                         tw.render((maxcol,), shown[1])
                         trans = tw.get_line_translation(maxcol)
                         full = tw.get_text()[0]
@@ -231,6 +271,8 @@ class _Run:
     def model_key(self, key, text, pos, pref, maxcol, cfg, tl, caplen, Align):  # noqa: C901, PLR0911, PLR0912, N803
         """(text, pos, pref, handled) expected after `key`, or None when the model has no opinion."""
         multiline, allow_tab = cfg.get("multiline", False), cfg.get("allow_tab", False)
+        if self.kind != "edit" and len(key) == 1 and ord(key) >= 32 and not self.num_valid(key, text, pos, cfg):
+            return text, pos, pref, False
         if len(key) == 1 and ord(key) >= 32 or (len(key) == 1 and key == "́"):
             return text[:pos] + key + text[pos:], pos + len(key), None, True
         if len(key) == 1:
@@ -256,7 +298,7 @@ class _Run:
             full, trans = self.geometry(text, maxcol)
             # the real widget may show a shifted view of the cursor row (clip mode); the shift moves the
             # columns of that row only, so rows are the same: use urwid's own coordinates of the cursor
-            tw = self.make(text=text, pos=pos)
+            tw = self.twin(text, pos)
             x, y = tw.get_cursor_coords((maxcol,))
             trans = tw.get_line_translation(maxcol)
             if key in ("home", "end"):
@@ -377,10 +419,10 @@ class EditEngine(Engine):
         "display-row geometry (which offset is at which cell) comes from urwid's text layout on a fresh twin Edit: layout itself is trusted (C03)",
         "a click is checked against the last rendering only when nothing changed between that render and the click",
         "str text only (bytes captions/texts are not generated); one code point = one character",
-        "numeric variants are checked for clauses 2, 3, 5, 6 and 7 only (their leading-zero trimming is not modelled)",
+        "numeric variants follow the same editor model restricted to their documented alphabet; after a handled key, leading zeros left of the cursor are removed and the cursor stays on its character (IntEdit, FloatEdit, IntegerEdit base 10)",
     ]
     components = {"real": ["Edit, IntEdit, IntegerEdit, FloatEdit, signals, text_layout (trusted for geometry)"], "stub": [], "driven": ["render / width-change placement between input events"]}
-    required_probes = ("cursor_cell_checked", "signals_checked", "click_checked_against_last_render", "click_with_stale_view_shift")
+    required_probes = ("cursor_cell_checked", "signals_checked", "click_checked_against_last_render", "click_with_stale_view_shift", "leading_zeros_trimmed_with_cursor_at_end")
     reducible = ("ops",)
     _wide = False
     _comb = False
